@@ -5,6 +5,7 @@ use crate::engine::{PropMeta, Space, Tier};
 pub mod c01;
 pub mod c02;
 pub mod c03;
+pub mod c06;
 pub mod c11;
 pub mod c12;
 pub mod c13;
@@ -15,6 +16,7 @@ pub fn spaces(prop: &str, tier: Tier) -> Vec<Box<dyn Space>> {
         "C01" => c01::spaces(tier),
         "C02" => c02::spaces(tier),
         "C03" => c03::spaces(tier),
+        "C06" => c06::spaces(tier),
         "C11" => c11::spaces(tier),
         "C12" => c12::spaces(tier),
         "C13" => c13::spaces(tier),
@@ -27,6 +29,7 @@ pub fn meta(prop: &str, tier: Tier) -> PropMeta {
         "C01" => c01::meta(tier),
         "C02" => c02::meta(tier),
         "C03" => c03::meta(tier),
+        "C06" => c06::meta(tier),
         "C11" => c11::meta(tier),
         "C12" => c12::meta(tier),
         "C13" => c13::meta(tier),
